@@ -1,5 +1,4 @@
-import XModel.Manager
-import XModel.IndexInv4
+import XModel.ManagerInv
 /-!
 # C03 — removing or replacing a definition leaves no trace
 The four indices are a function of the surviving tasks (`Index.Inv`), preserved by `register'` (fresh
@@ -17,5 +16,35 @@ theorem C03_register_inv (s : Mgr ρ κ) (t : Task ρ κ) (h : Inv s) (hfresh : 
 theorem C03_unregister_inv (s : Mgr ρ κ) (t : Task ρ κ) (h : Inv s) (hids : (s.tasks.map (·.id)).Nodup)
     (hrows : (DD.rows s.rtasks).Nodup) (hl : look s.tasks t.id = some t) : Inv (unregister' s t) :=
   unregister_inv s t h hids hrows hl
+
+/-! ### on the executable manager (the functions the driver runs) -/
+section manager
+open Manager Store Push
+
+/-- the state right after `Manager()` satisfies the invariant -/
+theorem C03_init : MInv MState.init := MInv.init
+
+/-- **one call**: whatever the call (assignment of a value or an expression, in-place update, register of a
+    fresh well-formed task, unregister, load, refresh, cleanup, verify), on a frozen or unfrozen manager,
+    and whatever happens while values propagate (exceptions, injected faults), the four indices are
+    afterwards again exactly the function `Index.Inv` of the surviving tasks -/
+theorem C03_one_call (sched : Sched) (s : MState) (c : Call) (hi : MInv s) (hw : WFCall s c) :
+    MInv (apply sched s c).1 := apply_MInv sched s c hi hw
+
+/-- **all histories**: by induction over the call list -/
+theorem C03_all_histories (sched : Sched) (cs : List Call) (hw : WFHist sched MState.init cs) :
+    MInv (applyAll sched MState.init cs) := applyAll_MInv sched cs MState.init MInv.init hw
+
+/-- regenerating the indices (`refresh`) from a state that satisfies the invariant gives a state that
+    satisfies it: nothing a history left behind can survive or be missing -/
+theorem C03_refresh (s : MState) (hi : MInv s) : MInv (refresh s).1 := refresh_MInv s hi
+
+/-- no later operation looks up a removed task: every id in the ordering graph or in a start set is registered -/
+theorem C03_no_stale_ids (s : MState) (hi : MInv s) :
+    (∀ u w, w ∈ gOf s.idx u → w ∈ s.defs.map (·.id)) ∧
+    (∀ startDeps k, k ∈ startOf s.idx startDeps → k ∈ s.defs.map (·.id)) :=
+  ⟨fun u w hw => gOf_closed s hi u w hw, fun sd k hk => startOf_sub s hi sd k hk⟩
+
+end manager
 
 end Properties.C03
